@@ -14,9 +14,11 @@ modelled,
 so that "format, then parse, gives the program back" is a statement about two models that are both
 tied to the implementation by the differential of `harness/src/bin/c17` (requests `frag-*`).
 
-The fragment (after step 2): ONE statement that is a sequence of one or more steps; each step a
-one-term chain whose term is a bare identifier, a bare tuple name `A`, or a tuple `[…]` / `A[…]` with
-unnamed or named (`x: t`) fields that are again one-term chains of the fragment; no trivia.
+The fragment (after step 3): ONE statement that is a sequence of one or more steps ("tall" steps set
+off by blank lines); each step and each field value a CHAIN of one or more terms (juxtaposition
+`[x, y] f`, pipelines `a ~> f`, chains ending in a container); a term is a bare identifier, a bare tuple
+name `A`, an integer or binary literal, a single-line string without holes, or a tuple `[…]` / `A[…]`
+with unnamed or named (`x: t`) fields; no trivia.
 
 Rust (format.rs)                          here
 ----------------                          ----
@@ -27,8 +29,12 @@ render_access (a bare identifier)         `termDoc (.leaf n)`
 field_doc (no trivia)                     `fieldDocOf`  = concat [nil, value, nil], value = chain_doc or
                                           concat [text "x: ", chain_doc]
 chain_doc (no pattern, one term)          `chainDoc`   = concat [nil, group (break_if_wider_than …)]
-sequence_doc_with                         `sequenceDoc` = group (concat [first, nest 0 (concat rest)]),
-                                          separator `seqSepDoc` = concat [ifBreak(nil, ","), line]
+chain_doc (several terms), chain_terms_doc `multiChainDoc`, `chainParts` (flattened head before a container,
+                                          else group; `line` + `ifBreak("~> ")` after a call-ender)
+render_literal, single_line_string_doc    `intText`, `binText`, `strText`
+is_tall_step, sequence_doc_with           `isTall`, `restDocs`, `sequenceDoc` = group (concat [first,
+                                          nest 0 (concat rest)]), separator `seqSepDoc` = concat
+                                          [ifBreak(nil, ","), line] or two hard lines around a tall step
 format_program (one statement)            `programDoc`, `fmtFrag`
 
 Rust (parser.rs)                          here
@@ -36,7 +42,10 @@ Rust (parser.rs)                          here
 tuple_field                               `fieldP`   (named alternative | chain)
 tuple_field_list in brackets              `bracketsP`
 tuple_term (three alternatives)           `tupleP`
-primary → tuple | access (identifier)     `termP`
+string_term, literal                      `stringP`, `literalP` (`integerP`, `binaryP`)
+primary → string | literal | tuple |      `termP`
+  access (identifier)
+chain_inner                               `chainP` (`chainSep` = alt((ws1 "~>" ws1), hspace1))
 sequence                                  `sequenceP`
 program                                   `programP`
 
